@@ -72,6 +72,46 @@ func runC05(e *Engine, r *Report, tier string) {
 	r.Rule("R5", "fee increase: delete old key precedes set; new fee = old + debited amount; id unchanged", 3, "functions deleting then setting 0x18")
 	r.Rule("R6", "queued record fields are the creator's parameters", 8, "record constructors")
 
+	// ---------- R7: key encodings of the record families are injective ----------
+	r.Rule("R7", "record keys encode their components injectively (no two variable-length parts adjacent)", 8, "key constructors of crosschain:16,18,20,21,22,45,48,49,51,54 and erc20:07")
+	for _, fn := range append(append([]*ssa.Function{}, e.Funcs...)) {
+		if fn.Parent() != nil || fn.Signature.Recv() != nil || !(strings.HasSuffix(fnPkgPath(fn), "x/crosschain/types") || strings.HasSuffix(fnPkgPath(fn), "x/erc20/types")) {
+			continue
+		}
+		if fn.Signature.Results().Len() != 1 {
+			continue
+		}
+		fam := ""
+		for _, b := range fn.Blocks {
+			if ret, ok := b.Instrs[len(b.Instrs)-1].(*ssa.Return); ok && len(ret.Results) == 1 {
+				for id := range e.KeyFamilies(ret.Results[0]) {
+					for _, hx := range []string{"16", "18", "20", "21", "22", "45", "48", "49", "51", "54"} {
+						if famMatch(id, cc, hx) {
+							fam = id
+						}
+					}
+					if famMatch(id, "erc20", "07") {
+						fam = id
+					}
+				}
+			}
+		}
+		if fam == "" || strings.Contains(fn.Name(), "Parse") {
+			continue
+		}
+		cs, ok := e.keyComponents(fn)
+		k := e.FnKey(fn)
+		if !ok {
+			r.Undecided("R7", k, e.Pos(fn.Pos()), "key constructor shape not recognised: injectivity cannot be decided")
+			continue
+		}
+		if amb := keyAmbiguity(cs); amb != "" {
+			r.Fail("R7", k, e.Pos(fn.Pos()), "two different records can get the same store key ("+fam+"): "+amb)
+		} else {
+			r.Ok("R7", k, e.Pos(fn.Pos()), fmt.Sprintf("%s: %d components", fam, len(cs)))
+		}
+	}
+
 	// ---------- R1 ----------
 	var incFns []*ssa.Function
 	for _, f := range e.FuncsWithOp(cc, "25", "set") {
